@@ -310,6 +310,21 @@ func randomTx(rng *rand.Rand, allowOdd bool) (*bt.Tx, *bec.PrivateKey) {
 			tx.AddOutput(&bt.Output{Satoshis: 0, LockingScript: &b})
 		}
 	}
+	// a transaction that went through Clone() or was parsed from bytes has empty (non-nil) unlocking
+	// scripts on its unsigned inputs; an estimate must treat those as unsigned too
+	switch rng.Intn(4) {
+	case 0:
+		tx = tx.Clone()
+	case 1:
+		if p, err := bt.NewTxFromBytes(tx.ExtendedBytes()); err == nil {
+			for i, in := range tx.Inputs {
+				if in.PreviousTxScript == nil {
+					p.Inputs[i].PreviousTxScript = nil
+				}
+			}
+			tx = p
+		}
+	}
 	return tx, key
 }
 
